@@ -18,6 +18,7 @@ package dispdrv
 import (
 	"fmt"
 	"math/rand"
+	"os"
 	"strings"
 	"sync"
 	"sync/atomic"
@@ -167,16 +168,23 @@ func realCase(rng *rand.Rand) *realRun {
 	wm.Start()
 	W := 1 + rng.Intn(3)
 	var peers []*rpeer
-	connect := func(mode string, d time.Duration) bool {
-		p := &rpeer{addr: fmt.Sprintf("p%d", len(peers)+1), mode: mode, delay: d,
+	connectAs := func(addr, mode string, d time.Duration) *rpeer {
+		p := &rpeer{addr: addr, mode: mode, delay: d,
 			sub: make(chan wire.Message), quit: make(chan struct{}), stop: stopAll}
 		select {
 		case peerCh <- p:
-			peers = append(peers, p)
-			return true
+			return p
 		case <-time.After(realDeadline):
+			return nil
+		}
+	}
+	connect := func(mode string, d time.Duration) bool {
+		p := connectAs(fmt.Sprintf("p%d", len(peers)+1), mode, d)
+		if p == nil {
 			return false
 		}
+		peers = append(peers, p)
+		return true
 	}
 	submit := func(n int, opts ...query.QueryOption) *rbatch {
 		b, reqs := mkBatch(n)
@@ -189,7 +197,7 @@ func realCase(rng *rand.Rand) *realRun {
 			return nil
 		}
 	}
-	kind := []string{"idle", "idle", "hard", "hard", "cancel", "disc", "failonly"}[rng.Intn(7)]
+	kind := []string{"idle", "idle", "hard", "hard", "cancel", "disc", "failonly", "reconnect", "reconnect"}[rng.Intn(9)]
 	n1 := W + 1 + rng.Intn(W+2)
 	if rng.Intn(5) == 0 {
 		n1 = 1 + rng.Intn(W)
@@ -224,6 +232,11 @@ func realCase(rng *rand.Rand) *realRun {
 		if W == 1 {
 			W = 2
 		}
+	case "reconnect":
+		// persistent peers: they go away while idle and come back under the
+		// SAME address before the batch is handed in
+		mode, delay = "final", time.Duration(rng.Intn(3))*time.Millisecond
+		n1 = 1 + rng.Intn(3)
 	case "failonly":
 		// unlimited retries, a hard deadline, and peers that only ever fail
 		// (each disconnects on its request, the later ones after the
@@ -249,6 +262,27 @@ func realCase(rng *rand.Rand) *realRun {
 		if !connect(m, delay) {
 			r.emit("rpeer", "HANG")
 			return r
+		}
+	}
+	if kind == "reconnect" {
+		// all of them, or all but one, drop and reconnect
+		keep := rng.Intn(2)
+		for i := keep; i < len(peers); i++ {
+			old := peers[i]
+			old.once.Do(func() { close(old.quit) })
+		}
+		// give the idle workers time to return (they are pruned lazily)
+		time.Sleep(time.Duration(5+rng.Intn(30)) * time.Millisecond)
+		for i := keep; i < len(peers); i++ {
+			np := connectAs(peers[i].addr, mode, delay)
+			if np == nil {
+				r.emit("rpeer", "HANG")
+				return r
+			}
+			peers[i] = np
+		}
+		if keep == 0 {
+			r.hit("real.reconnect-all")
 		}
 	}
 	hdr := fmt.Sprintf("kind=%s W=%d n=%d", kind, W, n1)
@@ -347,6 +381,9 @@ func RunReal(t *tr.W, thorough bool) {
 	n := 150 * tr.EnvInt("VERIF_BUDGET", 1)
 	if thorough {
 		n *= 10
+	}
+	if os.Getenv("VERIF_SEARCH") != "" {
+		n = 3 * 150
 	}
 	const par = 6
 	res := make([]*realRun, n)
